@@ -291,6 +291,373 @@ pub fn generate(rng: &mut Rng, tier: &str, w: &mut CaseWriter) {
     for _ in 0..n {
         gen_one(rng, w);
     }
+    // appended last: the draws of the older kinds stay what they were
+    let n = if tier == "thorough" { 1500 } else { 90 };
+    for _ in 0..n {
+        gen_bamx(rng, w);
+    }
+}
+
+// ---------------------------------------------------------------------------------------------
+// kind `bamx`: index + region query from the BYTES (NV.Index.ByteIndex.byte_bam_session)
+//
+//   bamx  hl file frames lin|bin ms d nref mut queries
+//         hl, file, frames as for bamb; the index is built by the loop of bam/fs/index.rs
+//         (index_inner) over Indexer<LinearIndex>::default() (`lin`, BAI) or
+//         Indexer<BinnedIndex>::new(ms, d) (`bin`) on ONE bam::io::Reader, which then serves
+//         Reader::query for every region of `queries` = k:s:e;...  ("-" = missing bound; the
+//         region name is r<k>);  mut = 0 for a file as the writer produced it, 1 when record
+//         bytes were patched afterwards (reference id going down / negative, POS missing or
+//         negative, an invalid CIGAR operation code): then the property's premise does not hold
+//         and only the correspondence with the model is checked
+//         obs = IxErr | Err:<kind> | S<a>-<b>-<len>-<hash>,...|Q<len>-<hash>,...|QErr:<kind>|...
+//   oracle (mut = 0): every answer == the records of a scan of the stream whose reference id is k
+//   and whose span POS..POS+sum(M,D,N,=,X)-1 (POS when 0), computed here from the record bytes,
+//   meets the region -- same order, nothing twice.
+
+/// (rid, pos1, end1) from the record bytes; None when unplaced
+fn body_span(b: &[u8]) -> Option<(i64, i64, i64)> {
+    if b.len() < 32 {
+        return None;
+    }
+    let rid = i64::from(i32::from_le_bytes([b[0], b[1], b[2], b[3]]));
+    let pos = i64::from(i32::from_le_bytes([b[4], b[5], b[6], b[7]]));
+    let l_name = b[8] as usize;
+    let n_ops = u16::from_le_bytes([b[12], b[13]]) as usize;
+    let mut span = 0i64;
+    for i in 0..n_ops {
+        let at = 32 + l_name + 4 * i;
+        let v = u32::from_le_bytes([b[at], b[at + 1], b[at + 2], b[at + 3]]);
+        if matches!(v & 15, 0 | 2 | 3 | 7 | 8) {
+            span += i64::from(v >> 4);
+        }
+    }
+    if rid < 0 || pos < 0 {
+        return None;
+    }
+    Some((rid, pos + 1, if span == 0 { pos + 1 } else { pos + span }))
+}
+
+fn patch_stream(rng: &mut Rng, raw: &mut [u8], spans: &[(usize, usize)]) -> bool {
+    if spans.is_empty() {
+        return false;
+    }
+    let i = rng.below(spans.len() as u64) as usize;
+    let at = spans[i].0 + 4; // body
+    let put = |raw: &mut [u8], off: usize, v: i32| raw[at + off..at + off + 4].copy_from_slice(&v.to_le_bytes());
+    match rng.below(6) {
+        0 => put(raw, 0, -5),                      // reference id: invalid
+        1 => put(raw, 0, 7),                       // reference id beyond the header / going down later
+        2 => put(raw, 4, -1),                      // no POS
+        3 => put(raw, 4, -9),                      // POS invalid
+        4 => {
+            let l_name = raw[at + 8] as usize;
+            let n_ops = u16::from_le_bytes([raw[at + 12], raw[at + 13]]);
+            if n_ops == 0 {
+                return false;
+            }
+            raw[at + 32 + l_name] |= 0x0f; // operation code 15
+        }
+        _ => {
+            if i == 0 {
+                return false;
+            }
+            put(raw, 0, 0); // back to reference 0 (goes down when an earlier record is on reference 1)
+        }
+    }
+    true
+}
+
+fn gen_bamx(rng: &mut Rng, w: &mut CaseWriter) {
+    let mut r2 = rng.fork();
+    let mutate = rng.chance(1, 6);
+    let built = guarded(AssertUnwindSafe(move || -> io::Result<_> {
+        let (mut raw, hl, spans) = raw_stream(&mut r2)?;
+        let m = if mutate { patch_stream(&mut r2, &mut raw, &spans) } else { false };
+        let file = bgzf_file(&mut r2, &raw)?;
+        let frames = frame_table(&file)?;
+        Ok((raw, hl, spans, file, frames, m))
+    }));
+    let (raw, hl, spans, file, frames, m) = match built {
+        Outcome::Done(Ok(x)) => x,
+        _ => return,
+    };
+    // number of references from the header text is not needed by the model: count @SQ lines
+    let text_len = u32::from_le_bytes([raw[4], raw[5], raw[6], raw[7]]) as usize;
+    let nref = u32::from_le_bytes([raw[8 + text_len], raw[9 + text_len], raw[10 + text_len], raw[11 + text_len]]) as u64;
+    let (kd, ms, d) = if rng.chance(1, 2) {
+        ("lin", 14u64, 5u64)
+    } else {
+        let geos = [(14u64, 5u64), (14, 6), (12, 5), (16, 4), (14, 3), (10, 6), (15, 5)];
+        let g = geos[rng.below(geos.len() as u64) as usize];
+        ("bin", g.0, g.1)
+    };
+    let maxp = ((1u64 << (ms + 3 * d)) - 1).min((1 << 29) - 1);
+    let recs: Vec<(i64, i64, i64)> = spans.iter().filter_map(|(a, b)| body_span(&raw[a + 4..*b])).collect();
+    let mut qs: Vec<String> = Vec::new();
+    for _ in 0..rng.range(2, 6) {
+        let k = if rng.chance(1, 20) { nref } else { rng.below(nref.max(1)) };
+        let o = |x: Option<u64>| x.map(|v| v.to_string()).unwrap_or("-".into());
+        let (s, e) = match rng.below(8) {
+            0 => (None, None),
+            1 => (Some(rng.range(1, maxp)), None),
+            2 => (None, Some(rng.range(1, maxp))),
+            3 if !recs.is_empty() => {
+                // around a record's ends
+                let r = recs[rng.below(recs.len() as u64) as usize];
+                let p = (if rng.chance(1, 2) { r.1 } else { r.2 } + rng.range(0, 2) as i64 - 1).clamp(1, maxp as i64) as u64;
+                (Some(p), Some((p + if rng.chance(1, 2) { 0 } else { rng.below(30000) }).min(maxp)))
+            }
+            4 => {
+                // beyond the index range: refused
+                let p = rng.range(1, maxp);
+                (Some(p), Some(maxp + 1 + rng.below(1000)))
+            }
+            _ => {
+                let p = rng.range(1, 3_200_000.min(maxp));
+                (Some(p), Some((p + match rng.below(3) { 0 => 0, 1 => rng.below(20000), _ => rng.below(6_000_000) }).min(maxp)))
+            }
+        };
+        qs.push(format!("{k}:{}:{}", o(s), o(e)));
+    }
+    w.push(
+        "bamx",
+        vec![
+            hl.to_string(),
+            hex(&file),
+            fmt_frames(&frames),
+            kd.to_string(),
+            ms.to_string(),
+            d.to_string(),
+            nref.to_string(),
+            if m { "1".into() } else { "0".into() },
+            qs.join(";"),
+        ],
+    );
+}
+
+enum IxOut<I> {
+    Built(Scan, I),
+    Refused,
+}
+
+/// index_inner of bam/fs/index.rs on an open reader (header already read): the scan as the loop
+/// sees it, and the index; Err = read_record failed, Refused = alignment_context / add_record failed
+fn index_loop<R, X>(
+    reader: &mut bam::io::Reader<R>,
+    mut ix: Indexer<X>,
+    nref: usize,
+) -> io::Result<IxOut<csi::binning_index::Index<X>>>
+where
+    R: bgzf::io::Read,
+    X: csi::binning_index::index::reference_sequence::Index + Default,
+{
+    let mut sc = Vec::new();
+    let mut record = bam::Record::default();
+    let mut start = reader.get_ref().virtual_position();
+    while reader.read_record(&mut record)? != 0 {
+        let end = reader.get_ref().virtual_position();
+        let ctx = (|| -> io::Result<_> {
+            Ok(match (
+                record.reference_sequence_id().transpose()?,
+                record.alignment_start().transpose()?,
+                record.alignment_end().transpose()?,
+            ) {
+                (Some(id), Some(s), Some(e)) => Some((id, s, e, !record.flags().is_unmapped())),
+                _ => None,
+            })
+        })();
+        let ctx = match ctx {
+            Ok(c) => c,
+            Err(_) => return Ok(IxOut::Refused),
+        };
+        if ix.add_record(ctx, Chunk::new(start, end)).is_err() {
+            return Ok(IxOut::Refused);
+        }
+        sc.push((u64::from(start), u64::from(end), rec_name(&record)));
+        start = end;
+    }
+    Ok(IxOut::Built(sc, ix.build(nref)))
+}
+
+type Answers = Vec<io::Result<Vec<String>>>;
+
+fn region_queries<R, I>(reader: &mut bam::io::Reader<R>, header: &sam::Header, index: &I, qs: &[(u64, Option<u64>, Option<u64>)]) -> Answers
+where
+    R: bgzf::io::BufRead + bgzf::io::Seek,
+    I: BinningIndex,
+{
+    qs.iter()
+        .map(|(k, s, e)| {
+            let p = |n: u64| Position::try_from(n as usize).unwrap();
+            let iv: noodles_core::region::Interval = match (s, e) {
+                (None, None) => (..).into(),
+                (Some(a), None) => (p(*a)..).into(),
+                (None, Some(b)) => (..=p(*b)).into(),
+                (Some(a), Some(b)) => (p(*a)..=p(*b)).into(),
+            };
+            let region = noodles_core::Region::new(format!("r{k}"), iv);
+            let query = reader.query(header, index, &region)?;
+            query.records().map(|r| r.map(|r| rec_name(&r))).collect()
+        })
+        .collect()
+}
+
+fn run_bamx(c: &Case) -> Obs {
+    let hl = c.u(0) as usize;
+    let file = unhex(&c.args[1]);
+    let lin = c.args[3] == "lin";
+    let (ms, d) = (c.u(4) as u8, c.u(5) as u8);
+    let mutated = c.args[7] == "1";
+    let qs: Vec<(u64, Option<u64>, Option<u64>)> = c.args[8]
+        .split(';')
+        .map(|q| {
+            let f: Vec<&str> = q.split(':').collect();
+            let o = |x: &str| if x == "-" { None } else { Some(x.parse::<u64>().unwrap()) };
+            (f[0].parse().unwrap(), o(f[1]), o(f[2]))
+        })
+        .collect();
+    let (frames, raw) = match guarded(AssertUnwindSafe(|| frame_table(&file))) {
+        Outcome::Done(Ok(fs)) => {
+            let raw: Vec<u8> = fs.iter().flat_map(|(_, d)| d.iter().copied()).collect();
+            (fs, raw)
+        }
+        _ => return Obs::fail("-", "harness-bamx-frame-table", ""),
+    };
+    if fmt_frames(&frames) != c.args[2] {
+        return Obs::fail("-", "harness-bamx-frames-differ-from-case", "");
+    }
+    let mut bodies: Vec<&[u8]> = Vec::new();
+    let mut at = hl;
+    while at + 4 <= raw.len() {
+        let n = u32::from_le_bytes([raw[at], raw[at + 1], raw[at + 2], raw[at + 3]]) as usize;
+        if n == 0 || at + 4 + n > raw.len() {
+            break;
+        }
+        bodies.push(&raw[at + 4..at + 4 + n]);
+        at += 4 + n;
+    }
+    let desc = |name: &str| -> String {
+        match name.parse::<usize>().ok().and_then(|i| bodies.get(i).copied()) {
+            Some(b) => format!("{}-{}", b.len(), hash_bytes(b)),
+            None => "?".into(),
+        }
+    };
+    let r = guarded(AssertUnwindSafe(|| -> io::Result<Option<(Scan, Answers, io::Result<Answers>)>> {
+        // ONE reader object: header, the indexing loop, the queries
+        let mut reader = bam::io::Reader::new(Cursor::new(&file[..]));
+        let header = reader.read_header()?;
+        let nref = header.reference_sequences().len();
+        if lin {
+            match index_loop(&mut reader, Indexer::<LinearIndex>::default(), nref)? {
+                IxOut::Refused => Ok(None),
+                IxOut::Built(sc, index) => {
+                    let a = region_queries(&mut reader, &header, &index, &qs);
+                    // the same queries, same reader, with the index written to BAI bytes and read back
+                    let a2 = (|| -> io::Result<Answers> {
+                        let mut w = bam::bai::io::Writer::new(Vec::new());
+                        w.write_index(&index)?;
+                        let buf = w.into_inner();
+                        let index2 = bam::bai::io::Reader::new(&buf[..]).read_index()?;
+                        Ok(region_queries(&mut reader, &header, &index2, &qs))
+                    })();
+                    Ok(Some((sc, a, a2)))
+                }
+            }
+        } else {
+            match index_loop(&mut reader, Indexer::<csi::binning_index::index::reference_sequence::index::BinnedIndex>::new(ms, d), nref)? {
+                IxOut::Refused => Ok(None),
+                IxOut::Built(sc, index) => {
+                    let a = region_queries(&mut reader, &header, &index, &qs);
+                    let a2 = (|| -> io::Result<Answers> {
+                        let mut w = csi::io::Writer::new(Vec::new());
+                        w.write_index(&index)?;
+                        let buf = w.into_inner().finish()?;
+                        let index2 = csi::io::Reader::new(&buf[..]).read_index()?;
+                        Ok(region_queries(&mut reader, &header, &index2, &qs))
+                    })();
+                    Ok(Some((sc, a, a2)))
+                }
+            }
+        }
+    }));
+    let label = if lin { "bai" } else { "csi" };
+    let maxq = (1u64 << (u64::from(ms) + 3 * u64::from(d))) - 1;
+    match r {
+        Outcome::Done(Ok(None)) => {
+            if mutated {
+                Obs { obs: "IxErr".into(), verdict: "skip".into(), nontrivial: false }
+            } else {
+                Obs::fail("IxErr", &format!("bamx-{label}-index-build-fails"), "")
+            }
+        }
+        Outcome::Done(Ok(Some((sc, answers, via_file)))) => {
+            // "used in memory or after being written to and read from an index file"
+            let canon = |a: &Answers| -> Vec<String> {
+                a.iter().map(|r| match r { Ok(n) => n.join(","), Err(e) => format!("Err:{}", errkind(e)) }).collect()
+            };
+            let via: Result<(), (String, String)> = match &via_file {
+                Ok(a2) if canon(a2) == canon(&answers) => Ok(()),
+                Ok(a2) => Err((format!("bamx-{label}-index-file-roundtrip-changes-answer"), format!("{:?} vs {:?}", canon(&answers), canon(a2)))),
+                Err(e) => Err((format!("bamx-{label}-index-file-write-or-read-fails"), format!("{e}"))),
+            };
+            let mut obs = String::from("S");
+            obs.push_str(&sc.iter().map(|(a, b, n)| format!("{a}-{b}-{}", desc(n))).collect::<Vec<_>>().join(","));
+            let mut verdict: Result<(), (String, String)> = Ok(());
+            let mut nontrivial = false;
+            let spans: Vec<Option<(i64, i64, i64)>> = bodies.iter().map(|b| body_span(b)).collect();
+            // a read that ends beyond the index geometry (small non-default min_shift/depth): the
+            // property's premise (records within the index range) does not hold -> correspondence only
+            let mutated = mutated || spans.iter().any(|sp| sp.map(|x| x.2 > maxq as i64).unwrap_or(false));
+            for ((k, s, e), ans) in qs.iter().zip(&answers) {
+                obs.push_str("|Q");
+                match ans {
+                    Ok(names) => {
+                        obs.push_str(&names.iter().map(|n| desc(n)).collect::<Vec<_>>().join(","));
+                        let lo = s.unwrap_or(1) as i64;
+                        let hi = e.map(|x| x as i64).unwrap_or(i64::MAX);
+                        let want: Vec<String> = spans
+                            .iter()
+                            .enumerate()
+                            .filter(|(_, sp)| sp.map(|(rid, rs, re)| rid == *k as i64 && rs <= hi && lo <= re).unwrap_or(false))
+                            .map(|(i, _)| i.to_string())
+                            .collect();
+                        let on_ref = spans.iter().filter(|sp| sp.map(|x| x.0 == *k as i64).unwrap_or(false)).count();
+                        if !want.is_empty() && want.len() < on_ref {
+                            nontrivial = true;
+                        }
+                        if *names != want && verdict.is_ok() && !mutated {
+                            let cls = if want.iter().any(|i| !names.contains(i)) {
+                                "missing-record"
+                            } else if names.iter().any(|i| !want.contains(i)) {
+                                "extra-record"
+                            } else {
+                                "order-or-duplicate"
+                            };
+                            verdict = Err((format!("bamx-{label}-{cls}"), format!("region r{k}:{s:?}-{e:?} scan={want:?} query={names:?}")));
+                        }
+                    }
+                    Err(err) => {
+                        obs.push_str(&format!("Err:{}", errkind(err)));
+                        let out_of_range = e.map(|x| x > maxq).unwrap_or(false) || s.map(|x| x > maxq).unwrap_or(false);
+                        let no_such_ref = (*k as usize) >= c.u(6) as usize;
+                        if !out_of_range && !no_such_ref && !mutated && verdict.is_ok() {
+                            verdict = Err((format!("bamx-{label}-query-error"), format!("region r{k}:{s:?}-{e:?}: {err}")));
+                        }
+                    }
+                }
+            }
+            if verdict.is_ok() && !mutated {
+                verdict = via;
+            }
+            if mutated && verdict.is_ok() {
+                return Obs { obs, verdict: "skip".into(), nontrivial: false };
+            }
+            Obs::ok(obs, nontrivial).with_verdict(verdict)
+        }
+        Outcome::Done(Err(e)) => Obs::fail(format!("Err:{}", errkind(&e)), "bamx-scan-error", format!("{e}")),
+        Outcome::Panicked(m) => Obs::fail("Panic", "bamx-panic", m),
+    }
 }
 
 fn run_bamb(c: &Case) -> Obs {
@@ -411,6 +778,7 @@ fn run_bamb(c: &Case) -> Obs {
 pub fn run(c: &Case) -> Option<Obs> {
     match c.kind.as_str() {
         "bamb" => Some(run_bamb(c)),
+        "bamx" => Some(run_bamx(c)),
         _ => None,
     }
 }
